@@ -4,7 +4,7 @@ from .. import harness, gen, pyref
 from ..curve import *
 
 VO = ['Props/C09.vo']
-FILES = ['Props/C09.v', 'Proofs/SqrtTS.v', 'Proofs/SqrtSarkar.v', 'Proofs/Instance.v', 'Tie/Loops.v']
+FILES = ['Props/C09.v', 'Proofs/SqrtTS.v', 'Proofs/SqrtSarkar.v', 'Proofs/Instance.v', 'Tie/Loops.v', 'Tie/SqrtArk.v']
 
 def build_scripts(ctx, scale):
     pairs = gen.sqrt_ratio_inputs(ctx.rng, 150 * scale)
